@@ -391,7 +391,9 @@ OPEN = [
           "definitions of later reads in the enclosing function. Each function is analysed by its own Analyzer, although the "
           "TreeAnnotator docstring promises to account for closures. Not repaired: a sound repair has to propagate every definition of the symbol in "
           "the enclosing function (the nested function may be called at any later point), which changes what the directives converter "
-          "sees as 'defined' names and is more than a small local patch.",
+          "sees as 'defined' names and is more than a small local patch. A prototype of that repair (all definitions of the owner and of "
+          "the local functions that declare the name nonlocal) also fails the pinned tests reaching_definitions_test.test_nested_functions "
+          "and test_nonlocal_in_nested_function, which assert that a closure read has no definitions ('late binding').",
   'witness': {'src': PREAMBLE + '''def f(a, b, c, xs, o, d):
     v0 = a + 1
     def fn1(p1):
